@@ -47,6 +47,45 @@ func (w *failingWriter) Write(p []byte) (int, error) {
 	return len(p), nil
 }
 
+// overrunWriter passes everything on but reports an error together with full progress
+// (like a quota writer that notices the overrun after the fact)
+type overrunWriter struct {
+	limit int
+	got   []byte
+}
+
+func (w *overrunWriter) Write(p []byte) (int, error) {
+	w.got = append(w.got, p...)
+	if len(w.got) > w.limit {
+		return len(p), errWriter
+	}
+	return len(p), nil
+}
+
+// hiccupWriter fails exactly once, after having accepted part of the data, and works again afterwards
+type hiccupWriter struct {
+	after  int
+	failed bool
+	got    []byte
+}
+
+func (w *hiccupWriter) Write(p []byte) (int, error) {
+	if !w.failed && len(w.got)+len(p) > w.after {
+		w.failed = true
+		k := w.after - len(w.got)
+		if k < 0 {
+			k = 0
+		}
+		if k == 0 && len(p) > 0 {
+			k = 1
+		}
+		w.got = append(w.got, p[:k]...)
+		return k, errWriter
+	}
+	w.got = append(w.got, p...)
+	return len(p), nil
+}
+
 type c14Result struct {
 	out string
 	err error
@@ -211,6 +250,25 @@ func checkC14(c any, r *Rec) error {
 				return wrap(fmt.Errorf("failing writer received %q, not a prefix of %q", fw.got, base.out))
 			}
 			r.Add("writer_faults", 1)
+			// the same position with writers that report the error together with progress
+			ow := &overrunWriter{limit: n}
+			if e := tpl.ExecuteWriter(progContext(cs.Variant, &tickState{}), ow); !errors.Is(e, errWriter) {
+				return wrap(fmt.Errorf("caller's writer reported an error together with a complete write (limit %d bytes); ExecuteWriter returned %v", n, e))
+			}
+			hw := &hiccupWriter{after: n}
+			if e := tpl.ExecuteWriter(progContext(cs.Variant, &tickState{}), hw); !errors.Is(e, errWriter) {
+				return wrap(fmt.Errorf("caller's writer failed once after %d bytes (with progress) and ExecuteWriter returned %v", n, e))
+			}
+			r.Add("writer_faults", 2)
+		}
+	}
+	// the first execution of a freshly compiled template through the unbuffered entry point
+	// must already agree (options such as TrimBlocks are not a side effect of the buffered paths)
+	if _, fresh, _, err := compileProgram(cs.Prog, cs.Trim, cs.LStrip); err == nil {
+		fw := &plainWriter{}
+		e := fresh.ExecuteWriterUnbuffered(progContext(cs.Variant, &tickState{}), fw)
+		if errText(e) != errText(base.err) || (base.err == nil && string(fw.buf) != base.out) {
+			return wrap(fmt.Errorf("ExecuteWriterUnbuffered as FIRST execution of a fresh template (TrimBlocks=%v LStripBlocks=%v) wrote %q / %s, Execute gives %q / %s", cs.Trim, cs.LStrip, fw.buf, errText(e), base.out, errText(base.err)))
 		}
 	}
 	r.Add("tick_faults", ticks)
